@@ -926,6 +926,10 @@ func (ex *Explorer) Run() {
 	}
 	sh.done = false
 	sh.idle = 0
+	sh.idleA.Store(0)
+	for i := range sh.visited {
+		sh.visited[i].m = nil // the state cache is per entry (parameters are not part of the state)
+	}
 	var wg sync.WaitGroup
 	for i := 0; i < ex.workers; i++ {
 		wg.Add(1)
